@@ -131,6 +131,7 @@ type Ev struct {
 	St  string `json:"st,omitempty"`  // status string
 	D   string `json:"d,omitempty"`   // data content seen
 	Ref int    `json:"ref,omitempty"` // ret: position of the matching call
+	T   int64  `json:"t,omitempty"`   // virtual clock (ns)
 	Sn  *Snap  `json:"sn,omitempty"`
 }
 
